@@ -880,7 +880,11 @@ func (fc *FCtx) execRange(s *ast.RangeStmt, st *State, label string) *Flow {
 	case KStr:
 		oos("range over string")
 	case KMap:
-		return fc.execRangeMap(s, st, label, coll, ord)
+		// iteration order is unspecified: every iteration sees SOME key of the (frozen) map; the loop runs
+		// card(map) times. Distinctness of the visited keys is not tracked (an over-approximation of the real
+		// executions, hence sound for the obligations proved about the loop).
+		n = app(fc.mapCard(coll.S), coll.T)
+		fc.note("range over a map: arbitrary key per iteration, card(map) iterations, distinctness of visited keys not tracked")
 	default:
 		if !isBz(coll.S) {
 			oos("range over %s", coll.S.Name)
@@ -895,6 +899,9 @@ func (fc *FCtx) execRange(s *ast.RangeStmt, st *State, label string) *Flow {
 		n = slLen(coll)
 	} else if isBz(coll.S) {
 		n = fmt.Sprintf("(bz_len %s)", coll.T)
+	} else if coll.S.Kind == KMap {
+		n = app(fc.mapCard(coll.S), coll.T)
+		st.assume(fmt.Sprintf("(>= %s 0)", n))
 	}
 	sp0 := loopSpecials{"#i": Val{T: "0", S: SInt}, "#n": Val{T: n, S: SInt}, "#coll": coll}
 	fc.checkInvs("inv-establish", ord, ls, st, sp0, bodyPos)
@@ -902,10 +909,17 @@ func (fc *FCtx) execRange(s *ast.RangeStmt, st *State, label string) *Flow {
 	if lv.ghost {
 		lv.ghostSet = fc.dryRunGhosts(st, func(d *State) []*State {
 			dgi := fc.U.Fresh("dry_ri", SInt)
+			if coll.S.Kind == KMap {
+				dgi = fc.U.Fresh("dry_mk", coll.S.Key)
+			}
 			if s.Key != nil {
 				if id, ok := s.Key.(*ast.Ident); ok && id.Name != "_" {
 					if obj := fc.info().ObjectOf(id); obj != nil {
-						d.vars[obj] = Val{T: dgi, S: SInt, GoT: types.Typ[types.Int]}
+						if coll.S.Kind == KMap {
+							d.vars[obj] = Val{T: dgi, S: coll.S.Key, GoT: obj.Type()}
+						} else {
+							d.vars[obj] = Val{T: dgi, S: SInt, GoT: types.Typ[types.Int]}
+						}
 					}
 				}
 			}
@@ -915,6 +929,8 @@ func (fc *FCtx) execRange(s *ast.RangeStmt, st *State, label string) *Flow {
 						var ev Val
 						if coll.S.Kind == KSlice {
 							ev = Val{T: fmt.Sprintf("(select %s %s)", slEl(coll), dgi), S: coll.S.Elem, GoT: elemType(coll.GoT)}
+						} else if coll.S.Kind == KMap {
+							ev = Val{T: fmt.Sprintf("(select %s %s)", mpVal(coll), dgi), S: coll.S.Elem, GoT: elemType(coll.GoT)}
 						} else {
 							ev = Val{T: fmt.Sprintf("(bz_at %s %s)", coll.T, dgi), S: SInt, GoT: types.Typ[types.Uint8]}
 						}
@@ -959,7 +975,33 @@ func (fc *FCtx) execRange(s *ast.RangeStmt, st *State, label string) *Flow {
 		fc.assignTo(e, v, b)
 	}
 	intT := types.Typ[types.Int]
-	bind(s.Key, Val{T: gi, S: SInt, GoT: intT})
+	if coll.S.Kind == KMap {
+		for _, o := range lv.objs {
+			if id, ok := unparen(s.X).(*ast.Ident); ok && fc.info().ObjectOf(id) == o {
+				oos("map modified while ranging over it")
+			}
+		}
+		mk := fc.U.Fresh("mk", coll.S.Key)
+		b.assume(fmt.Sprintf("(select %s %s)", mpDom(coll), mk))
+		var kt types.Type
+		if mt, ok := coll.GoT.Underlying().(*types.Map); ok {
+			kt = mt.Key()
+		}
+		kv := Val{T: mk, S: coll.S.Key, GoT: kt}
+		if kt != nil {
+			b.assume(fc.U.WF(kv))
+		}
+		bind(s.Key, kv)
+		if s.Value != nil {
+			ev := Val{T: fmt.Sprintf("(select %s %s)", mpVal(coll), mk), S: coll.S.Elem, GoT: elemType(coll.GoT)}
+			if ev.GoT != nil {
+				b.assume(fc.U.WF(ev))
+			}
+			bind(s.Value, ev)
+		}
+	} else {
+		bind(s.Key, Val{T: gi, S: SInt, GoT: intT})
+	}
 	if s.Value != nil && isBz(coll.S) {
 		bind(s.Value, Val{T: fmt.Sprintf("(bz_at %s %s)", coll.T, gi), S: SInt, GoT: types.Typ[types.Uint8]})
 	}
@@ -1186,17 +1228,35 @@ func containsRecover(n ast.Node) bool {
 	return found
 }
 
+// execGo: `go f(args)` where f has a contract. The spawned call is sequentialised at the spawn point: its
+// contract is applied there (requires asserted, frame havocked, ensures assumed). This is an assumption about the
+// schedule, stated in the evidence; it is adequate for contracts that only count channel sends / describe what
+// is sent, on channels buffered for every spawned sender (the sender never blocks, the spawner never observes
+// intermediate states of the goroutine except through the channel).
 func (fc *FCtx) execGo(s *ast.GoStmt, st *State) *Flow {
-	oos("go statement")
-	return nil
+	name := fc.calleeName(s.Call)
+	fn := fc.calleeObj(s.Call)
+	if fn == nil {
+		oos("go statement with a non-function callee")
+	}
+	key := funcKey(fn)
+	if c := fc.E.cs.Funcs[key]; c == nil {
+		oos("go statement: spawned function %s has no contract", name)
+	}
+	fc.assumed["goroutine "+shortPkg(key)+" sequentialised at its spawn point (its contract is applied there); scheduling is not modelled"] = true
+	fc.evalCall(s.Call, st)
+	return single(st)
 }
 
 func (fc *FCtx) execSend(s *ast.SendStmt, st *State) *Flow {
 	v := fc.eval(s.Value, st)
 	if g, ok := st.ghost["ChanSent"]; ok {
 		st.ghost["ChanSent"] = Val{T: fmt.Sprintf("(+ %s 1)", g.T), S: g.S}
-		if l, ok := st.ghost["ChanLast"]; ok && l.S == v.S {
-			st.ghost["ChanLast"] = Val{T: v.T, S: v.S, GoT: v.GoT}
+		// every ghost named ChanLast* whose sort is the sent value's sort records the last value sent
+		for _, gname := range fc.ghostNames(st) {
+			if strings.HasPrefix(gname, "ChanLast") && st.ghost[gname].S == v.S {
+				st.ghost[gname] = Val{T: v.T, S: v.S, GoT: v.GoT}
+			}
 		}
 		fc.note("channel sends are counted in the ghost ChanSent (last value in ChanLast); goroutine scheduling is not modelled")
 	} else {
